@@ -449,6 +449,9 @@ func (t Table) Lookup(req *http.Request, trace string, pick picker, match matche
 					target.RedirectURL.Host == req.Host &&
 					target.RedirectURL.Path == req.URL.Path {
 					log.Print("[INFO] Skipping redirect with same scheme, host and path")
+					// do not hand out the skipped redirect
+					// when there is no other host to look at
+					target = nil
 					continue
 				}
 			}
